@@ -10,6 +10,9 @@ A spec is
    "workplaces": [{"name", "cap", "targets": [task idx], "inputs": [wp idx],
                    "facilities": [{"name", "skills", "cost", "solo", "absence"}]}],
    "components": [{"name", "space", "children": [comp idx], "tasks": [task idx]}],
+   "value_eq": workers / facilities are user subclasses with value equality; "build_style": "bottom-up" creates the project first with empty containers of user
+   subclasses (len(), truth value) and appends everything afterwards; worker/facility "absence_late": calendar handed over empty and filled afterwards through the
+   caller's reference; worker/facility/workplace "copy_of": a copy.copy twin whose run-time containers are still the template's,
    "product_wire": "register-and-link" grows the product with append_child_component, parts hung under an assembly as soon as it is registered,
    "order": optional permutation of task indexes giving the order inside workflow.task_list,
    "hash": optional list of hash ranks for tasks (default: index), "chash": same for components}
@@ -93,6 +96,70 @@ class _HFacility(BaseFacility):
 _HFacility.__name__ = "BaseFacility"
 _HFacility.__qualname__ = "BaseFacility"
 
+# user-style subclasses with value equality (two distinct objects that carry the same name and the same skills compare equal and hash alike)
+class _VWorker(_HWorker):
+    def __eq__(self, other):
+        return type(other) is type(self) and other.name == self.name and other.workamount_skill_mean_map == self.workamount_skill_mean_map
+
+    def __hash__(self):
+        return hash(self.name)
+
+
+_VWorker.__name__ = "BaseWorker"
+_VWorker.__qualname__ = "BaseWorker"
+
+
+class _VFacility(_HFacility):
+    def __eq__(self, other):
+        return type(other) is type(self) and other.name == self.name and other.workamount_skill_mean_map == self.workamount_skill_mean_map
+
+    def __hash__(self):
+        return hash(self.name)
+
+
+_VFacility.__name__ = "BaseFacility"
+_VFacility.__qualname__ = "BaseFacility"
+
+
+# user-style container subclasses with the usual conveniences (len(), truth value = "has members", iteration)
+class _UWorkflow(BaseWorkflow):
+    def __len__(self):
+        return len(self.task_list)
+
+    def __iter__(self):
+        return iter(self.task_list)
+
+
+_UWorkflow.__name__ = "BaseWorkflow"
+_UWorkflow.__qualname__ = "BaseWorkflow"
+
+
+class _UProduct(BaseProduct):
+    def __len__(self):
+        return len(self.component_list)
+
+
+_UProduct.__name__ = "BaseProduct"
+_UProduct.__qualname__ = "BaseProduct"
+
+
+class _UOrganization(BaseOrganization):
+    def __len__(self):
+        return len(self.team_list)
+
+
+_UOrganization.__name__ = "BaseOrganization"
+_UOrganization.__qualname__ = "BaseOrganization"
+
+
+class _UTeam(BaseTeam):
+    def __len__(self):
+        return len(self.worker_list)
+
+
+_UTeam.__name__ = "BaseTeam"
+_UTeam.__qualname__ = "BaseTeam"
+
 PLACEMENT_LOG = []  # appended by _HComponent / _HWorkplace, cleared by the runner per execution
 
 
@@ -148,9 +215,12 @@ def build(spec, plain=False):
     SubC = BaseSubProjectTask if plain else _HSubTask
     CompC = BaseComponent if plain else _HComponent
     WpC = BaseWorkplace if plain else _HWorkplace
-    WkC = BaseWorker if plain else _HWorker
-    FcC = BaseFacility if plain else _HFacility
+    WkC = BaseWorker if plain else (_VWorker if spec.get("value_eq") else _HWorker)
+    FcC = BaseFacility if plain else (_VFacility if spec.get("value_eq") else _HFacility)
+    bottom_up = spec.get("build_style") == "bottom-up"
+    TeamC = _UTeam if bottom_up else BaseTeam
     whash = spec.get("whash")
+    late_cals = {}  # calendars handed to the constructors while still empty and filled through the caller's own reference afterwards ("absence_late")
     nres = [0]
     m = Model()
     hashes = spec.get("hash") or list(range(len(spec["tasks"])))
@@ -219,9 +289,9 @@ def build(spec, plain=False):
     for tms in spec.get("teams", []):
         if tms.get("wire") == "ctor":
             # one-sided wiring through the constructor keyword: only the team knows its tasks
-            team = BaseTeam(name=tms["name"], ID=tms["name"], targeted_task_list=[m.tasks[ti] for ti in tms.get("targets", [])])
+            team = TeamC(name=tms["name"], ID=tms["name"], targeted_task_list=[m.tasks[ti] for ti in tms.get("targets", [])])
         else:
-            team = BaseTeam(name=tms["name"], ID=tms["name"])
+            team = TeamC(name=tms["name"], ID=tms["name"])
         for ws in tms.get("workers", []):
             if ws.get("skills_inplace"):
                 # built like `BaseWorker(name)` and filled afterwards by item assignment (as user code often does)
@@ -245,7 +315,7 @@ def build(spec, plain=False):
                 workamount_skill_mean_map=dict(ws.get("skills", {})),
                 workamount_skill_sd_map={},
                 facility_skill_map=dict(ws.get("fskills", {})),
-                absence_time_list=list(ws.get("absence", [])),
+                absence_time_list=(late_cals.setdefault(ws.get("id") or ws["name"], []) if ws.get("absence_late") is not None else list(ws.get("absence", []))),
                 main_workplace_id=ws.get("mainwp"),
                 quality_skill_mean_map={},
                 quality_skill_sd_map={},
@@ -274,7 +344,7 @@ def build(spec, plain=False):
                 solo_working=bool(fs.get("solo", False)),
                 workamount_skill_mean_map=dict(fs.get("skills", {})),
                 workamount_skill_sd_map={},
-                absence_time_list=list(fs.get("absence", [])),
+                absence_time_list=(late_cals.setdefault(fs.get("id") or fs["name"], []) if fs.get("absence_late") is not None else list(fs.get("absence", []))),
             )
             if fs.get("absence_after") is not None:
                 f.absence_time_list = list(fs["absence_after"])
@@ -342,13 +412,40 @@ def build(spec, plain=False):
                 m.components[i].append_child_component(m.components[ch])
     else:
         product = BaseProduct(list(m.components))
-    m.project = BaseProject(
-        init_datetime=init_dt,
-        unit_timedelta=datetime.timedelta(minutes=spec.get("unit_min", 1)),
-        product=product,
-        workflow=wf,
-        organization=BaseOrganization(team_list=list(m.teams), workplace_list=list(m.workplaces)),
-    )
+    for rs in [w_ for tm_ in spec.get("teams", []) for w_ in tm_.get("workers", [])] + [f_ for wp_ in spec.get("workplaces", []) for f_ in wp_.get("facilities", [])]:
+        if rs.get("absence_late") is not None:
+            late_cals[rs.get("id") or rs["name"]].extend(rs["absence_late"])  # the caller fills the list object he handed over
+        if rs.get("copy_of"):
+            # a twin made with copy.copy(template) whose declared attributes were rebound afterwards: the run-time containers are still the template's
+            a_, b_ = m.byname[rs.get("id") or rs["name"]], m.byname[rs["copy_of"]]
+            a_.assigned_task_list = b_.assigned_task_list
+            a_.state_record_list = b_.state_record_list
+            a_.cost_list = b_.cost_list
+            a_.assigned_task_id_record = b_.assigned_task_id_record
+    for wps in spec.get("workplaces", []):
+        if wps.get("copy_of"):
+            a_, b_ = m.byname[wps.get("id") or wps["name"]], m.byname[wps["copy_of"]]
+            a_.placed_component_list = b_.placed_component_list
+            a_.placed_component_id_record = b_.placed_component_id_record
+            a_.cost_list = b_.cost_list
+    if bottom_up:
+        # the project is created first, with empty containers of user subclasses (len() / truth value = "has members"), and everything is appended afterwards
+        wf0, pr0, org0 = _UWorkflow([]), _UProduct([]), _UOrganization([], [])
+        m.project = BaseProject(init_datetime=init_dt, unit_timedelta=datetime.timedelta(minutes=spec.get("unit_min", 1)), product=pr0, workflow=wf0, organization=org0)
+        for t_ in wf.task_list:
+            wf0.append_child_task(t_)
+        for c_ in product.component_list:
+            pr0.append_child_component(c_)
+        org0.team_list.extend(m.teams)
+        org0.workplace_list.extend(m.workplaces)
+    else:
+        m.project = BaseProject(
+            init_datetime=init_dt,
+            unit_timedelta=datetime.timedelta(minutes=spec.get("unit_min", 1)),
+            product=product,
+            workflow=wf,
+            organization=BaseOrganization(team_list=list(m.teams), workplace_list=list(m.workplaces)),
+        )
     if spec.get("second_workflow"):
         # the same task objects are afterwards also put into another BaseWorkflow (a partial view of the project with a project object of its own)
         m.second_workflow = BaseWorkflow([])
